@@ -66,8 +66,8 @@ def clause_universe(nvars: int, maxlen: int):
 
 
 @functools.lru_cache(None)
-def formula_list(nvars: int, maxlen: int, minsize: int, maxsize: int):
-    u = clause_universe(nvars, maxlen)
+def formula_list(nvars: int, maxlen: int, minsize: int, maxsize: int, minlen: int = 1):
+    u = tuple(c for c in clause_universe(nvars, maxlen) if len(c) >= minlen)
     out = []
     for k in range(minsize, maxsize + 1):
         out.extend(itertools.combinations(u, k))
@@ -494,6 +494,14 @@ def make_jobs(pid, tier, seed):
     jobs.append(Job("structured", len(st), _explicit_chunk, (pid, st), chunk=max(1, len(st) // 256), describe="pigeonhole (all renamings of PHP(3,2)), parity chains, assumptions on n-rooks"))
     rd = reduce_db_cases(tier)
     jobs.append(Job("reduce_db", len(rd), _explicit_chunk, (pid, rd), chunk=1, describe=">=2000 blocking clauses: two wide clauses over 11-12 variables, all models enumerated"))
+    # 4 variables, ternary clauses only: the smallest space with three decision levels below a conflict
+    # (level-0 assumption + two decisions + a propagated literal), where backjump-level mistakes show
+    t4 = (4, 3, 1, 4 if tier == "quick" else 5, 3)
+    n_t4 = len(formula_list(*t4))
+    jobs.append(Job(f"u4_ternary_le{t4[3]}_x_light", n_t4 * len(config_menu("light", 4)), _block_chunk, (pid, t4, "light", 4, 0), describe="clause-sets of the 32 three-literal clauses on 4 variables x light configurations (assumptions, enumeration, budgets)"))
+    if tier == "thorough":
+        t5 = (5, 3, 1, 3, 3)
+        jobs.append(Job("u5_ternary_le3_x_light", len(formula_list(*t5)) * len(config_menu("light", 5)), _block_chunk, (pid, t5, "light", 5, 0), describe="clause-sets of <=3 of the 80 three-literal clauses on 5 variables"))
     # rotating extra block (complete enumeration of one block of the thorough space)
     if tier == "quick":
         n5 = len(formula_list(3, 3, 5, 5))
